@@ -100,3 +100,16 @@ package nsx
 //vc:  assert[C07] at "s.sendRequest("#2 @onlyNetspocPoliciesFetched strings.HasPrefix(result.Id, "Netspoc")
 //vc:func (*State).getRawJSON
 //vc:  assert[C07] at "data = append(data, result)" @onlyNetspocObjectsKept strings.HasPrefix(id.Id, "Netspoc")
+
+// ---- C09: a failed request while the device configuration is retrieved is reported ----
+// sendRequest records a failed request in the ghost devFailure; the functions
+// that page through the manager's objects return without error only if no
+// request failed on the way (a swallowed failure would let approve work on a
+// truncated device configuration and record OK).
+//vc:func (*State).getRawJSON
+//vc:  invariant[C09] 1 "for {" @noFailureSoFar devFailure == old(devFailure)
+//vc:  invariant[C09] 2 "for _, result := range results.Results" devFailure == old(devFailure)
+//vc:  ensures[C09] @pageFailureReported result1 == nil ==> devFailure == old(devFailure)
+//vc:func (*State).LoadDevice
+//vc:  invariant[C09] 1 "for _, result := range resultStruct.Results" @noFailureSoFar devFailure == old(devFailure)
+//vc:  ensures[C09] @requestFailureReported result1 == nil ==> devFailure == old(devFailure)
